@@ -104,6 +104,7 @@ def shards(tier):
             for strand in ('+', '-'):
                 for k in range(NSPLIT):
                     out.append((cls, taps_strand, strand, k))
+                out.append((cls, taps_strand, strand, 'long'))
     return out
 
 
@@ -111,8 +112,25 @@ def _cases(shard, tier):
     cls, taps_strand, strand, k = shard
     b = bounds(tier)
     shapes = b['shapes']
+    if k == 'long':
+        # molecules tiled in coordinate order over the long contig through ONE TAPS handler and ONE FastaFile, the way the
+        # tagger processes a contig: state kept between molecules (reference windows, memoised contexts) is exercised
+        seq = _CONTIGS[G.LONG]
+        L = 8
+        for start in range(0, len(seq) - L + 1):
+            for c in G.window_cases(G.LONG, seq, start, L, ('single', 'full'), unsafe_single=True):
+                if c['sub'] is not None or (c['shape'] == 'single' and not c['unsafe']):
+                    continue
+                nconv = len(G.convertible_offsets(seq[start:start + L]))
+                if len(c['conv']) not in (0, nconv):
+                    continue
+                c.update({'cls': cls, 'strand': strand, 'taps_strand': taps_strand})
+                yield c
+        return
     for L in range(1, b['max_window'] + 1):
         for contig, seq in _CONTIGS.items():
+            if contig == G.LONG:
+                continue
             for start in range(0, len(seq) - L + 1):
                 if start % NSPLIT != k:
                     continue
